@@ -194,9 +194,10 @@ Qed.
 Lemma finish_root_bnodes : forall s ix, bnodes (finish_root init s ix) = bnodes s.
 Proof.
   intros s ix. unfold finish_root. generalize (last_instruction init s). intros last.
+  generalize (existsb (Nat.eqb (instr_len init s)) (jumps s)). intros tg.
   match goal with |- bnodes (fold_left ?f ?en s) = _ => generalize en end. intros ends.
   revert s. induction ends as [|e ends IH]; intros s; [reflexivity|]. cbn [fold_left].
-  destruct last as [li|]; [destruct (instr_eqb li e && instruction_eqb (fst e) I_EndExpression)|]; rewrite IH; reflexivity.
+  destruct last as [li|]; [destruct (instr_eqb li e && instruction_eqb (fst e) I_EndExpression && negb tg)|]; rewrite IH; reflexivity.
 Qed.
 
 Lemma roots_nfj : forall dfuel fuel s, inv s -> not_fj (roots nodes init lit_ok dfuel fuel s).
